@@ -175,7 +175,122 @@ def check_invariants(ctx, c, case, dbfile):
         m.close()
 
 
+class _OpenShim:
+    """stands in for the `sqlite3` module inside tupimage.id_manager while a database is being OPENED: the trace callback is
+    attached at `connect`, so the statements of `IDManager.__init__` (PRAGMAs, schema DDL) are crash points too"""
+
+    def __init__(self, real, die_before, log):
+        self._real, self._die, self._log = real, die_before, log
+
+    def connect(self, *a, **kw):
+        conn = self._real.connect(*a, **kw)
+
+        def trace(sql):
+            if self._die is not None and len(self._log) == self._die:
+                os._exit(77)
+            self._log.append(" ".join(sql.split(None, 3)[0:3]))
+
+        conn.set_trace_callback(trace)
+        return conn
+
+    def __getattr__(self, name):
+        return getattr(self._real, name)
+
+
+def _open_fresh(dbfile, die_before=None):
+    """IDManager(dbfile) on a file that may not exist yet, in THIS process; -> statements executed while opening"""
+    im = _im()
+    log = []
+    real = im.sqlite3
+    im.sqlite3 = _OpenShim(real, die_before, log)
+    try:
+        m = im.IDManager(dbfile)
+        m.conn.set_trace_callback(None)
+        m.close()
+    finally:
+        im.sqlite3 = real
+    return log
+
+
+PROBE_AFTER_OPEN = [
+    ["get", "P8", "8bit", 5, 7], ["get", "P8d", "8bit_diacritic", 1, 3], ["get", "P16", "16bit", 1, 2], ["get", "P24", "24bit", 3, 4],
+    ["get", "P32", "32bit", 0, 256], ["set", 77, "S"], ["mark", 77, "T", 5], ["cleanup", "8bit", 0, 256, 10], ["cleanup_uploads", 10], ["del", 77],
+]
+
+
+def check_open_crash(ctx: Ctx, c: dict):
+    """The very first process to open a session database dies while it is setting the file up (before statement k of
+    `IDManager.__init__`, k over all of them).  By the property the file must then open normally for everybody else and every
+    operation must work: whatever part of the schema the dead process left is completed by the next one to open the file."""
+    im = _im()
+    td = tempfile.mkdtemp(prefix="vc12o")
+    try:
+        db0 = os.path.join(td, "dry.db")
+        pid = os.fork()
+        if pid == 0:
+            try:
+                log = _open_fresh(db0)
+                with open(os.path.join(td, "dry.json"), "w") as f:
+                    json.dump(log, f)
+                os._exit(0)
+            except BaseException as e:
+                with open(os.path.join(td, "dry.err"), "w") as f:
+                    f.write(repr(e))
+                os._exit(3)
+        os.waitpid(pid, 0)
+        if not os.path.exists(os.path.join(td, "dry.json")):
+            raise RuntimeError("dry run of the first open failed: " + open(os.path.join(td, "dry.err")).read())
+        kinds = json.load(open(os.path.join(td, "dry.json")))
+        n = len(kinds)
+        ctx.count(f"open:statements={n}")
+        for k in (c.get("ks") or range(n + 1)):
+            # `again`: how many further processes die at the same point of THEIR open before one gets through
+            dbk = os.path.join(td, f"k{k}.db")
+            for rep in range(1 + c.get("again", 0)):
+                pid = os.fork()
+                if pid == 0:
+                    try:
+                        _open_fresh(dbk, die_before=(k if k < n else None))
+                    finally:
+                        os._exit(77 if k >= n else 5)
+                _, st = os.waitpid(pid, 0)
+                code = os.waitstatus_to_exitcode(st)
+                if code != 77:
+                    # a later opener may need fewer statements than the first one: it finished before its planned death
+                    ctx.count("open-crash:finished-before-planned-death" if code == 5 and rep > 0 else "open-crash:unexpected-exit")
+                    if not (code == 5 and rep > 0):
+                        ctx.mismatch("crash child of the first open did not die at the planned statement", dict(c, ks=[k]), code, 77)
+            case = dict(c, ks=[k])
+            ctx.count("open-crash-points")
+            ctx.count("crash-points")
+            ctx.count("open-crash-before:" + (kinds[k] if k < n else "RETURN"))
+            t0 = time.time()
+            try:
+                m = im.IDManager(dbk)
+            except Exception as e:
+                ctx.violation("database does not open after the process that created it was killed", case,
+                              {"crash_before_statement": k, "of": n, "statement": kinds[k] if k < n else "RETURN", "error": repr(e)}, key="reopen-fails")
+                continue
+            try:
+                for op in PROBE_AFTER_OPEN:
+                    try:
+                        apply_op(m, op)
+                    except Exception as e:
+                        ctx.violation("an operation fails on a database whose creator was killed while setting it up", case,
+                                      {"crash_before_statement": k, "of": n, "statement": kinds[k] if k < n else "RETURN", "operation": op,
+                                       "error": repr(e)}, key="operation-after-open-crash")
+                        break
+                if time.time() - t0 > 5.0:
+                    ctx.violation("a fresh process had to wait for the dead one", case, {"seconds": time.time() - t0}, key="lock-survives")
+            finally:
+                m.close()
+    finally:
+        shutil.rmtree(td, ignore_errors=True)
+
+
 def check_case(ctx: Ctx, c: dict):
+    if c.get("k") == "open-crash":
+        return check_open_crash(ctx, c)
     td = tempfile.mkdtemp(prefix="vc12")
     try:
         # dry run: pre, post, statements
@@ -303,6 +418,8 @@ def _is_pre_after_cleanups(c, pre, got):
 
 def cases(ctx: Ctx):
     rng = ctx.rng
+    yield dict(k="open-crash")                 # the creator of the file is killed at every statement of its open
+    yield dict(k="open-crash", again=1)        # … and so is the next process, at the same point of its own open
     fills = {
         "empty": dict(prefill=[]),
         "some": dict(prefill=[[5, "A"], [6, "B"], [0x01000005, "C"], [0x010203, "D"], [0x02030405, "E"]], preupload=[[5, "T", 10], [6, "T", 20], [6, "U", 5]]),
@@ -349,7 +466,9 @@ def cases(ctx: Ctx):
 def run(ctx: Ctx):
     ctx.rule = ("operation x fill state (empty / some rows + upload rows / completely full 8-bit subspace / dense 16-bit subspace forcing the "
                 "rejection-sampling, clean-up and exhaustion path) x EVERY statement index k of the traced dry run (crash before statement k, "
-                "including before COMMIT) plus a crash right after the operation returned; distinct = (case, k); non-trivial = all")
+                "including before COMMIT) plus a crash right after the operation returned; and the FIRST OPEN of a fresh file killed before every "
+                "statement of IDManager.__init__ (once, and twice in a row), after which the file must open and every operation must work; "
+                "distinct = (case, k); non-trivial = all")
     cdir = Path(__file__).resolve().parent.parent / "corpus" / "C12"
     if cdir.is_dir():
         for f in sorted(cdir.glob("*.json")):
